@@ -12,6 +12,9 @@ from harness.common import Ctx, load_corpus
 PROP = "C06"
 THEOREMS = [
     "IrVerif.Kernel.C06_atomic",
+    "IrVerif.Kernel.C06_update_atomic",
+    "IrVerif.Kernel.C06_rename_values_atomic",
+    "IrVerif.Kernel.C06_sort_cycle_no_change",
 ]
 ASSUMPTIONS = [
     "arguments are existing objects of the right class (the model is typed)",
@@ -27,6 +30,8 @@ def run(ctx: Ctx) -> None:
     )
     for obj in load_corpus(PROP):
         K.replay_ops(ctx, PROP, obj["ops"])
+    scope = K.run_exhaustive(ctx, PROP, depth=ctx.pick(2, 3), reduced=not ctx.quick)
+    ctx.exhaustive_scopes.append(scope)
     K.run_random(ctx, PROP, ctx.pick(2000, 40000), ctx.pick(40, 60))
 
 
